@@ -149,6 +149,7 @@ def run(ck):
     ck.assumptions += ["children are self-consistent (never => false, always => true)", "fewer than 64 filters"]
     ck.rule("C08.R9", "a Vec / Layered tree replaces its computed interest by the per-filter sum only if every part is per-layer-filtered (as C07.R7)", floor=2)
     ck.rule("C08.R10", "FilterFn / DynFilterFn builder steps keep the predicate and the other hint (same-named field carry-over, as C13.R6)", floor=3)
+    ck.rule("C08.R11", "EnvFilter publishes `never` only when it has no span directives, and `always` only for what the static directives (or a stored span matcher) enable", floor=2)
     ck.rule("C08.R8", "level hints and thresholds are compared by a correct total order (as C19.R1/R2/R4)", floor=60)
     ck.rule("C08.R1", "And/Or/Not: interest table sound w.r.t. enabled; hint is a sound bound", floor=6)
     ck.rule("C08.R2", "Option<F>: None is neutral, Some forwards", floor=4)
@@ -163,6 +164,7 @@ def run(ck):
     C07.r7(ck, F, rid="C08.R9")
     from rulekit.query import builder_carry_over
     builder_carry_over(ck, F, "C08.R10", ("tracing_subscriber::filter::filter_fn::",))
+    envfilter_interest(ck, F)
     r1(ck, F)
     r2(ck, F)
     r3(ck, F)
@@ -656,3 +658,54 @@ def r7(ck, F, rid="C08.R7"):
         ck.bad(rid, "pick_level_hint has the None-layer branches, evaluated on the live layers", where(b.raw["sp"]), "; ".join(problems), fn=b.path)
     else:
         ck.ok(rid, "pick_level_hint has the None-layer branches, evaluated on the live layers (Option<S>::None hint OFF is corrected at composition)", fn=b.path)
+
+
+def envfilter_interest(ck, F, rid="C08.R11"):
+    """EnvFilter::enabled looks at the per-thread scope of entered spans *before* the static directives whenever span
+    directives exist (has_dynamics): inside a matching span it accepts what the static directives reject. The cached
+    summary must therefore never be `never` while has_dynamics is set, whatever the static directives say."""
+    from rulekit.sym import PathEval, show
+    E = "tracing_subscriber::filter::env::EnvFilter::"
+    rc, bi = F.body(E + "register_callsite"), F.body(E + "base_interest")
+    if not ck.anchor(rid, "EnvFilter::register_callsite", rc):
+        return
+    base = {}
+    if bi is not None:
+        for p in PathEval(bi).run():
+            if p.end == "return":
+                dyn = [c[1] for c in p.conds if show(c[0]) == "arg1.has_dynamics"]
+                base[show(p.ret)] = dyn[0] if dyn else "?"
+    nevers, always_bad, rows = [], [], 0
+    for p in PathEval(rc).run():
+        if p.end != "return":
+            continue
+        rows += 1
+        r = show(p.ret)
+        conds = [(show(c[0]), c[1]) for c in p.conds]
+        dyn = [v for t, v in conds if t == "arg1.has_dynamics"]
+        no_dyn = bool(dyn) and dyn[0] == 0
+        if r.startswith("base_interest("):
+            # never() from base_interest only under !has_dynamics
+            if bi is None or base.get("never()") != 0 or any(v != 0 for k, v in base.items() if k == "never()"):
+                nevers.append("base_interest returns never() under %s" % base)
+        elif r == "never()":
+            if not no_dyn:
+                nevers.append("never() under %s" % [c for c in conds if c[1] != 0 or c[0] == "arg1.has_dynamics"][:4])
+        elif r == "always()":
+            # (the static verdict may be spelled as statics.enabled(..) or as a look at directives_for(..).next(): any
+            # test on the static directive set counts; what it must compute is C11.R2's business)
+            if not any(("arg1.statics" in t and v != 0) or (t.startswith("discr(matcher(arg1.dynamics") and v == 1) for t, v in conds):
+                always_bad.append(conds[:4])
+        elif r != "sometimes()":
+            nevers.append("unrecognised result %s" % r[:60])
+    key = "EnvFilter::register_callsite publishes `never` only when there are no span directives"
+    if rows and not nevers:
+        ck.ok(rid, key, fn=rc.path, detail=rows)
+    else:
+        ck.bad(rid, key, where(rc.raw["sp"]), "%s: inside a span matched by a span directive `enabled` accepts the callsite, but the cached `never` means it is never asked"
+               % "; ".join(sorted(set(nevers)))[:300], fn=rc.path)
+    key = "EnvFilter::register_callsite publishes `always` only for what the static directives enable or a stored span matcher covers"
+    if rows and not always_bad:
+        ck.ok(rid, key, fn=rc.path)
+    else:
+        ck.bad(rid, key, where(rc.raw["sp"]), "always() is returned under %s" % always_bad[:2], fn=rc.path)
